@@ -6,7 +6,7 @@ from bounded.common import quiet
 ELS = ['C', 'N', 'O', 'H', 'Zr']
 
 
-def mk(n, terms=True, coeffs=True, extra=True, cell='ortho', seed=0, labels=True, typed=None, kinds=None, xrev=False, long=False, unused=None, dup=False, rev=False):
+def mk(n, terms=True, coeffs=True, extra=True, cell='ortho', seed=0, labels=True, typed=None, kinds=None, xrev=False, long=False, unused=None, dup=False, rev=False, sparse_bonds=False):
     """Structure with n atoms (n <= 6), a fixed pool of terms restricted to existing atoms, type tables."""
     from mofun import Atoms
     rnd = random.Random(seed * 7919 + n)
@@ -29,6 +29,8 @@ def mk(n, terms=True, coeffs=True, extra=True, cell='ortho', seed=0, labels=True
         kw['cell'] = np.array([[11., 0, 0], [2.5, 12., 0], [-1.5, 2.0, 13.]])
     if terms and n >= 2:
         pool_b = [(0, 1), (1, 2), (3, 4), (2, 0), (4, 1), (2, 3), (5, 0), (4, 5)]
+        if sparse_bonds:
+            pool_b = pool_b[:2]          # bonds among the first three atoms only; the other kinds of term reach every atom
         pool_a = [(0, 1, 2), (1, 2, 3), (2, 3, 4), (4, 1, 0), (3, 4, 5)]
         pool_d = [(0, 1, 2, 3), (1, 2, 3, 4), (4, 3, 1, 0), (2, 3, 4, 5)]
         pool_i = [(1, 0, 2, 3), (3, 1, 2, 4), (5, 4, 3, 2)]
